@@ -316,6 +316,24 @@ func run(c *mc.Ctx, r *mc.Result) {
 		}
 	}
 	runSpecs(c, r, "space.intermediary", sp6, 3, rq6)
+	// infix catch-alls followed by further wildcards (the part after the catch-all is resolved by a nested lookup
+	// with its own parameters): the lookups that compute the Allow list must leave nothing on the context the
+	// no-method / options handler runs with
+	var sp7 []rsx.RouteSpec
+	for _, p := range []string{"/a/*{x}/b/{y}", "/a/*{x}/b/{y}/", "/a/*{x}/b/*{z}", "/*{x}/b/{y}/c/{u}", "/a/{y}"} {
+		for _, m := range []string{"GET", "POST"} {
+			for _, sl := range []int{rsx.SlashNone, rsx.SlashIgnore} {
+				sp7 = append(sp7, rsx.RouteSpec{Method: m, Pattern: p, Slash: sl})
+			}
+		}
+	}
+	var rq7 []rsx.Req
+	for _, p := range []string{"/a/q/b/r", "/a/q/b/r/", "/a/q/s/b/r", "/a/q/b/r/c/t", "/a/q", "/q/b/r/c/t", "/a/q/b/r/s"} {
+		for _, m := range []string{"GET", "POST", "DELETE", "OPTIONS"} {
+			rq7 = append(rq7, rsx.Req{Method: m, Path: p})
+		}
+	}
+	runSpecs(c, r, "space.infix-then-wildcards", sp7, 2, rq7)
 }
 
 // viaUpdate selects BuildViaUpdate for the family being run (set by run only)
